@@ -357,8 +357,11 @@ def sig_for(G):
 
 # -- running ----------------------------------------------------------------------
 
-def run_one(rec, G, tag, inputs=None, rounds=150, expand=True):
-    if not gen.well_formed(G):
+def run_one(rec, G, tag, inputs=None, rounds=150, expand=True, trusted=False):
+    # curated shapes are trusted: the static analysis is conservative about parameters under a
+    # repetition (it dropped seven of them silently), while the reference model re-checks progress
+    # dynamically on every input before the real code runs
+    if not trusted and not gen.well_formed(G):
         rec.drop()
         return
     sp = sig_for(G)
@@ -376,7 +379,7 @@ def run_one(rec, G, tag, inputs=None, rounds=150, expand=True):
     if expand:
         try:
             GX = expand_grammar(G)
-            if gen.well_formed(GX):
+            if trusted or gen.well_formed(GX):
                 bx = diff.build(rec, GX, sigprefix=sp + 'expanded-', report=False)
                 if bx is None:
                     rec.count('expansion_uncompilable')
@@ -698,7 +701,7 @@ def run_shard(rec):
             extra = [] if tag.startswith('byte') else [s for s in EXTRA_RULES if s[1] not in {x[1] for x in stmts}]
             G = dict(name=gname, extends=None, stmts=list(stmts) + extra)
             run_one(rec, G, ('special', tag, 'named' if named else 'unnamed'), rounds=300 if quick else 1500,
-                    expand=(named is None))
+                    expand=(named is None), trusted=True)
     # random programs with templates
     from .. import proggen
     n = 25 if quick else 600
